@@ -58,7 +58,7 @@ m = {
     "not_applicable": na,
     "notes": "Technique family: runtime monitoring and sanitizers. Exit 0 = held on everything observed, 1 = violation "
              "(VIOLATION line + replay file), 2 = inconclusive (build failure, watchdog, coverage floor missed). "
-             "known_findings.txt lists the five genuine defects found on the pinned tree, all repaired by 'fix:' commits in /repo.",
+             "known_findings.txt lists the six genuine defects found on the pinned tree, all repaired by 'fix:' commits in /repo.",
 }
 if not na:
     m["not_applicable"] = []
